@@ -3,8 +3,8 @@ package main
 // C17 — inbox forwarding happens iff its three conditions hold, once, unchanged.
 
 import (
-	"go/token"
 	"fmt"
+	"go/token"
 	"strings"
 
 	"golang.org/x/tools/go/ssa"
